@@ -324,7 +324,7 @@ func childMain(t *testing.T, spec string) int {
 	return 0
 }
 
-const maxStates = 12_000_000
+const maxStates = 8_000_000
 
 func TestVerifC32(t *testing.T) {
 	if os.Getenv("GOGC") == "" {
@@ -383,7 +383,6 @@ func TestVerifC32(t *testing.T) {
 		children = append(children, c)
 	}
 	total := &childResult{ByKey: map[string]*found{}, CountKey: map[string]int64{}}
-	states := map[uint64]struct{}{}
 	statesCapped := false
 	var infra string
 	for _, c := range children {
@@ -429,20 +428,17 @@ func TestVerifC32(t *testing.T) {
 			total.CountKey[k] += n
 		}
 		for ; len(sb) >= 8; sb = sb[8:] {
-			if len(states) >= maxStates {
+			if r.NumDistinct() >= maxStates {
 				statesCapped = true
 				break
 			}
-			states[binary.LittleEndian.Uint64(sb)] = struct{}{}
+			r.DistinctHash(binary.LittleEndian.Uint64(sb))
 		}
 	}
 	if infra != "" {
 		ev.InfraError("%s", infra)
 	}
 
-	for k := range states {
-		r.DistinctHash(k)
-	}
 	r.Evals(total.Leaves)
 	r.States(total.Nodes)
 	r.Transitions(total.Steps)
@@ -458,7 +454,7 @@ func TestVerifC32(t *testing.T) {
 	r.Set("bound_completed", bound)
 	r.Set("histories_observed_distinct_prefixes", total.Nodes)
 	r.Set("histories_executed_maximal", total.Leaves)
-	r.Set("distinct_model_states", len(states))
+	r.Set("distinct_model_states", r.NumDistinct())
 	r.Set("distinct_model_states_capped", statesCapped)
 	r.Set("protocol_requests", total.Requests)
 	r.Set("session_incremental_requests", total.Cov.SessIncr)
